@@ -124,7 +124,7 @@ func ruleUnionRange(c *Ctx, r *Reporter) {
 	}
 	minPhi, maxPhi := headerPhi(first.phi), headerPhi(last.phi)
 	for _, row := range []struct {
-		f, l           int64
+		f, l             int64
 		wantMin, wantMax bool
 	}{{-1, +1, true, true}, {-1, -1, true, false}, {+1, +1, false, true}, {+1, -1, false, false}} {
 		five := int64(5)
